@@ -179,6 +179,27 @@ def run(rep):
             if drow is None:
                 sheets.append({"name": "settings", "header": [decl], "rows": [["http://example.com/foo"]]})
             jobs.append({"wb": {"sheets": sheets}, "fmt": "dict", "parts": ("c01",), "tag": {"scoped_declaration": decl, "decl_row": drow, "uses": [[ua, ra], [ub, rb]]}})
+    # the reserved corners of "Namespaces in XML": the prefixes xml / xmlns and the two namespace names bound to them cannot be (re)declared,
+    # a prefix cannot be undeclared (empty URI), and xmlns: is not a prefix an element name can carry - whichever way the declaration arrives
+    XML_NS, XMLNS_NS = "http://www.w3.org/XML/1998/namespace", "http://www.w3.org/2000/xmlns/"
+    for di, dcol in enumerate(("instance::", "bind::", "body::", "attribute::", "namespaces")):
+        for pi, (pfx, uri) in enumerate((("xml", "http://example.com/x"), ("xmlns", "http://example.com/x"), ("zz", XML_NS), ("zz", XMLNS_NS), ("jr", XMLNS_NS), ("zz", ""), ("xml", XML_NS))):
+            survey = {"name": "survey", "header": ["type", "name", "label"], "rows": [["begin group", "g", "G"], ["text", "q1", "Q1"], ["end group", None, None]]}
+            sheets = [survey]
+            if dcol == "namespaces":
+                sheets.append({"name": "settings", "header": ["namespaces"], "rows": [[f'{pfx}="{uri}"']]})
+            elif dcol == "attribute::":
+                sheets.append({"name": "settings", "header": [f"attribute::xmlns:{pfx}"], "rows": [[uri]]})
+            else:
+                for row in (0, 1):
+                    sv = {"name": "survey", "header": survey["header"] + [f"{dcol}xmlns:{pfx}"], "rows": [r + [None] for r in survey["rows"]]}
+                    sv["rows"][row][3] = uri
+                    jobs.append({"wb": {"sheets": [sv]}, "fmt": "dict", "parts": ("c01",), "tag": {"reserved_namespace": [dcol, pfx, uri], "row": row}})
+                continue
+            jobs.append({"wb": {"sheets": sheets}, "fmt": "dict", "parts": ("c01",), "tag": {"reserved_namespace": [dcol, pfx, uri]}})
+    for kind, nm in (("text", "xmlns:foo"), ("begin group", "xmlns:foo"), ("begin repeat", "xmlns:r"), ("text", "xml:foo"), ("text", "xmlns"), ("calculate", "xmlns:c")):
+        rows = [[kind, nm, "L", "1" if kind == "calculate" else None]] + ([["text", "inner", "I", None], [kind.replace("begin", "end"), None, None, None]] if kind.startswith("begin") else [])
+        jobs.append({"wb": {"sheets": [{"name": "survey", "header": ["type", "name", "label", "calculation"], "rows": rows}]}, "fmt": "dict", "parts": ("c01",), "tag": {"reserved_prefix_in_element_name": [kind, nm]}})
     for ch in TEXT_CHANNELS:
         for cls, text in TEXT_TOKENS.items():
             jobs.append({"wb": text_form(ch, text), "fmt": "dict", "parts": ("c01",), "tag": {"text_channel": ch, "token": cls}})
